@@ -123,7 +123,17 @@ def one(item):
             loader = fresh_loader()
             feed(loader, stmts, item.get('route', 'input'), tmp)
             name = item.get('root') or None
-            if item.get('via', 'loader') == 'loader':
+            if item.get('via', 'loader') == 'load_component' and not item.get('derived'):
+                # the one-call interface: bridgepoint.load_component(resource, name) on the model as files
+                import bridgepoint
+                os.makedirs(os.path.join(tmp, 'lc'))
+                k3 = max(1, len(stmts) // 2)
+                paths = []
+                for i in range(0, len(stmts), k3):
+                    paths.append(os.path.join(tmp, 'lc', 'part%d.xtuml' % i))
+                    open(paths[-1], 'w').write(''.join(stmts[i:i + k3]))
+                c = bridgepoint.load_component(paths if len(paths) > 1 else paths[0], name)
+            elif item.get('via', 'loader') in ('loader', 'load_component'):
                 c = loader.build_component(name, bool(item.get('derived')))
             else:
                 m = loader.build_metamodel()
